@@ -37,6 +37,10 @@ InitsConcT == { [cfg |-> Cfg(e, {}, "always", TRUE, "d/g"), src |-> ConcTree(z)]
 NamesAll  == {".", "f", "d", "d/g", "d/e", "d/f", "m"}
 NamesAll3 == NamesAll \cup {"d/e/h"}
 NamesFew  == {"f", "d", "d/g", "d/f", "m"}
+\* a file at depth 3 opened after a file at depth 2 (the ancestor of its parent then exists in the cache store, the parent does not)
+NamesDeep == {"f", "d/g", "d/e/h"}
+DirsDeep  == {"d/e"}
+InitsDeepQ == { [cfg |-> c, src |-> T3(2, 5, 6)] : c \in { Cfg("with", {}, "always", TRUE, ""), Cfg("late", {}, "always", FALSE, "") } }
 NamesIO   == {"f", "d"}
 NamesIO3  == {"f", "d", "d/e"}
 NamesF3   == {"f", "d/g", "d/e/h"}
